@@ -456,7 +456,7 @@ def st_value(kind: str, strs: Any = None):
         return st.one_of(st.none(), s)
     if kind == "float":
         return st.one_of(
-            st.sampled_from([0.0, 1.5, -2.25, 1e16, 5e-324, 1e-7, 3.0, -0.0, 1e300, -1.7976931348623157e308]),
+            st.sampled_from([0.0, 1.5, -2.25, 1e16, 5e-324, 1e-7, 3.0, -0.0, -0.0, -0.0, 1e300, -1.7976931348623157e308]),  # (-0.0 == the default 0.0)
             st.floats(allow_nan=False, allow_infinity=False),
         )
     if kind == "path":
